@@ -82,8 +82,15 @@ def opCell (a : List String) : String :=
   | none => "bad-op"
   | some c => if !c.valid then "na" else renderObs (obsOf (session c))
 
+/-- the caller's name-check hook: for which ServerNames it is installed and what it verifies -/
+def showHook (h : NameHook) : String :=
+  if h == noHook then "none"
+  else
+    "+".intercalate ((if h.onUnset then ["unset"] else []) ++ (if h.onIP then ["ip"] else []) ++ (if h.onDNS then ["dns"] else [])) ++
+    (if h.hostFallback then ":ServerName-else-dialled-host" else ":ServerName")
+
 def showClient (c : ClientCfg) : String :=
-  s!"roots={c.rootsSet},skip={c.skipVerify},sn={c.serverNamePassed},min={c.minVersion},max={c.maxVersion},cert={c.sendsCert},ems={c.extendedMasterSecret}"
+  s!"roots={c.rootsSet},skip={c.skipVerify},sn={c.serverNamePassed},min={c.minVersion},max={c.maxVersion},cert={c.sendsCert},ems={c.extendedMasterSecret},namehook={showHook c.nameHook}"
 
 def showAuth : ClientAuth → String
   | .noClientCert => "none"
